@@ -122,5 +122,7 @@ def run(ctx, rule="CONTROL"):
             "Seq.__eq__": ["equality"], "Seq2.__eq__": [], "or_none": ["or-none"],
             "alloc_domain": ["alloc-domain"], "alloc_domain_indexed": [],
             "fold_dropped": ["fold-dropped"], "fold_kept": [],
-            "uint_arith": ["uint-arith"], "uint_arith_converted": []}
+            "uint_arith": ["uint-arith"], "uint_arith_converted": [],
+            "stale_buffer": ["stale-buffer"], "fresh_buffer": [],
+            "assert_same": ["assert-falls"], "assert_same_raises": []}
     ctx.ob(rule, "py-slips", got == want, fx, "python slip lints on the fixture: %s" % got)
